@@ -18,6 +18,7 @@
 package tsdb
 
 import (
+	"errors"
 	"fmt"
 	"sort"
 	"strconv"
@@ -50,6 +51,9 @@ type Segment interface {
 	Close()
 }
 
+// errSegmentClosed represents the segment was closed(evicted) after the caller got it.
+var errSegmentClosed = errors.New("segment closed")
+
 // segment implements Segment interface.
 type segment struct {
 	shard     Shard
@@ -60,6 +64,7 @@ type segment struct {
 	baseTime  int64
 	interval  timeutil.Interval
 	mutex     sync.RWMutex
+	closed    bool // the kv store is closed, the segment was dropped by the interval segment which created it
 }
 
 // newSegment returns segment, segment is wrapper of kv store.
@@ -116,6 +121,10 @@ func (s *segment) GetDataFamilies(timeRange timeutil.TimeRange) []DataFamily {
 			continue
 		}
 		family := s.getOrLoadFamily(familyName, familyTime)
+		if family == nil {
+			// segment closed
+			return result
+		}
 		// the family's own range against the query range: the family INDEX of a range end (day of month,
 		// month of year) is only meaningful inside the segment that contains it, and the range may
 		// start or end in another segment
@@ -160,6 +169,11 @@ func (s *segment) GetOrCreateDataFamily(timestamp int64) (DataFamily, error) {
 	s.mutex.Lock()
 	defer s.mutex.Unlock()
 
+	if s.closed {
+		// evicted after the caller got this segment: a family created now would sit on the closed kv store,
+		// accept rows and never be able to flush them.
+		return nil, errSegmentClosed
+	}
 	if family, ok := s.families[familyTime]; ok {
 		return family, nil
 	}
@@ -197,6 +211,7 @@ func (s *segment) Close() {
 	}
 	// clear family cache
 	s.families = make(map[int]DataFamily)
+	s.closed = true
 }
 
 // getOrLoadFamily returns data family if it's exist in memory or storage.
@@ -204,6 +219,9 @@ func (s *segment) getOrLoadFamily(familyName string, familyTime int) DataFamily 
 	s.mutex.Lock()
 	defer s.mutex.Unlock()
 
+	if s.closed {
+		return nil
+	}
 	if family, ok := s.families[familyTime]; ok {
 		return family
 	}
